@@ -119,7 +119,9 @@ def check_C01(tier, seed):
            ("TimeWarpMC_m1.tla", "TimeWarpMC_m1_k3.cfg", "m1", 3)],
           [("TimeWarpMC_m3.tla", "TimeWarpMC_m3_k1.cfg", "m3 (3 LPs on 3 threads: straggler against a history entry cancelled in place)", 1),
            ("TimeWarpMC_m2.tla", "TimeWarpMC_m2_k1.cfg", "m2 (3 LPs, cascade of depth 2, zero-delay tie)", 1),
-           ("TimeWarpMC_m2.tla", "TimeWarpMC_m2_k3.cfg", "m2", 3)])
+           ("TimeWarpMC_m2.tla", "TimeWarpMC_m2_k3.cfg", "m2", 3),
+           ("TimeWarpMC_m5.tla", "TimeWarpMC_m5_k1.cfg", "m5 (3 LPs on 2 threads: rollback over a self-send and a same-thread send, different re-execution)", 1),
+           ("TimeWarpMC_m5.tla", "TimeWarpMC_m5_g2.cfg", "m5 + abstract GVT (two values) + fossil collection", 1)])
     return _sys("C01", tier, seed, ["C01", "C03"], ["mixed", "ties", "zerodelay", "fanout", "chain", "single", "relay", "chain"], 8, 40, 5, 12, mc=mc, replay=True, real=10)
 
 
@@ -251,8 +253,18 @@ def check_C06(tier, seed):
                    "cancelled in place and the anti-message copy is not yet re-inserted)", 1), workers=8, timeout=1500, heap="8g")
         c.probe_phase("TimeWarpMC_m3.tla", "TimeWarpMC_m3_k1.cfg", [("Probe_NoExecOverCancelledEntry", "an event that sorts before the last history entry is executed "
                       "after it because that entry was cancelled in place (flag-first comparison)")], workers=4, timeout=600, heap="4g")
+        # m5: the rollback undoes a send to the LP itself and a send to an LP of the same thread (anti-message handled by its own sender)
+        for k in ((1,) if tier == "quick" else (1, 2)):
+            c.mc_phase("TimeWarpMC_m5.tla", "TimeWarpMC_m5_k%d.cfg" % k, MC_NOTE % ("m5 (3 LPs on 2 threads: rollback over a send to the LP itself and over a "
+                       "send to an LP of the same thread; the re-execution sends something else)", k), workers=8, timeout=1500, heap="8g")
+        c.probe_phase("TimeWarpMC_m5.tla", "TimeWarpMC_m5_k1.cfg",
+                      [("Probe_NoRollbackOverProcessedSelfSend", "a rollback undoes an event and the already processed event that it had sent to its own LP"),
+                       ("Probe_NoCascadeInSameThread", "the anti-message for a send to an LP of the same thread arrives after processing (rollback in the sender's thread)")],
+                      workers=4, timeout=600, heap="4g")
         _tw_mc_dist(c, tier)
         # the real code on the same micro-models, under many schedules (distinct interleavings of the shared accesses)
+        c.micro_phase("m5", 64 if tier == "quick" else 3000)
+        c.replay_phase("m5", "TimeWarpMC_m5.tla", "TimeWarpMC_m5_k1.cfg", 80 if tier == "quick" else 6000, sim_num=40 if tier == "quick" else 2500)
         c.micro_phase("m1", 64 if tier == "quick" else 3000)
         c.micro_phase("m2", 64 if tier == "quick" else 3000)
         c.micro_phase("m3", 48 if tier == "quick" else 3000, threads=3)
